@@ -497,7 +497,7 @@ def make_html(eng):
 # ------------------------------------------------------------ L13: front-matter value types, odd URLs, empty option values of every registered directive
 
 FM_VALUES = ["a: [2020-01-01]", "a: 2020-01-01", "a: !!binary aGk=", "a: !!set {x, y}", "a: 2020-13-45", "a: 2020-01-01T25:00:00", "a: " + "[" * 400 + "]" * 400, "a: {b: [1, {c: 2.5}], d: null}",
-             "a: !!timestamp x", "a: 0x1G", "a: .inf", "? [complex, key]\n: v", "date: 2020-01-01\nauthors: [a, b]\nabstract: '*md*'", "a: !!omap [x: 1]", "a: !!pairs [x: 1, x: 2]", "1: int key\n2.5: float key\nnull: null key", "a: {2024-01-01: x}", "a: [{2024-01-01T00:00:00: [x]}]", "a: {[1, 2]: x}"]
+             "a: !!timestamp x", "a: 0x1G", "a: .inf", "? [complex, key]\n: v", "date: 2020-01-01\nauthors: [a, b]\nabstract: '*md*'", "a: !!omap [x: 1]", "a: !!pairs [x: 1, x: 2]", "1: int key\n2.5: float key\nnull: null key", "a: {2024-01-01: x}", "a: &x [*x]", "a: &y {k: *y}", "a: [{2024-01-01T00:00:00: [x]}]", "a: {[1, 2]: x}"]
 ODD_LINKS = ["<inv://[x>", "[a](inv://[x)", "[a](http://[x)", "<http://[::1>", "[a](mailto:[x)", "[a](inv:k:std:label#x%00y)", "[a](%00)", "[a](#%00)", "[a](x%ZZ)", "<project:#a%00b>", "[a](http://%5Bx)",
              "[a](inv:%5B#x)", "[a](//[x/y)", "![img](http://[x)", "[a](ftp://[x \"title\")",
              # backslashes, group references and template braces in a destination that goes through a url_schemes template
